@@ -19,7 +19,11 @@ META = {
         '(cache) every Ranges method that changes ranges/values resets the '
         'cached value, and no code outside the class writes them on a shared '
         'object; (paths) finish() and from_dict() run the same post-processing; '
-        '(names) the inv-data key written by the model is the key compile reads.'),
+        '(names) the inv-data key written by the model is the key compile reads; '
+        '(history) calculate, compile, to_dict, finish and from_dict - with '
+        'everything they reach through self and the helpers of their module - '
+        'never read a dispatcher\'s stored `solution`, i.e. the values an '
+        'earlier calculation left behind.'),
     'not_decided': (
         'That dependents are recomputed, that values equal those of a fresh '
         'model, output restriction, and effects hidden inside schedula.'),
@@ -158,6 +162,10 @@ def _funcs_of(av):
         r = []
         for a in [av.fn] + list(av.args) + list(av.kw.values()):
             r += _funcs_of(a)
+        # a package factory called at registration time hands out one of its
+        # nested functions: that closure is what runs at calculation time
+        if isinstance(av.fn, FuncV):
+            r += list(av.fn.fi.nested.values()) + list(av.fn.fi.lambdas)
         return r
     return []
 
@@ -426,4 +434,6 @@ def rule_names(ctx):
 
 
 def run(ctx):
-    return [rule_nomut(ctx), rule_cache(ctx), rule_paths(ctx), rule_names(ctx)]
+    from .modelstate import rule_history
+    return [rule_nomut(ctx), rule_cache(ctx), rule_paths(ctx), rule_names(ctx),
+            rule_history(ctx, 'C07', 'C07.history')]
